@@ -222,6 +222,25 @@ def c01_runs(stream, scen=None):
     return wit
 
 
+def c01_live(stream, scen=None):
+    """(queue-only scenarios) a run executes every LIVE event that is due: an event may be skipped as
+    cancelled only if some cancel request for its asset id exists in the scenario at all."""
+    if not scen or any(l[0] in ('asset', 'res', 'target', 'wire', 'S') for l in scen):
+        return []
+    cancelled_ids = set()
+    for l in scen:
+        op = l[2:] if l[0] == 'script' else (l[1:] if l[0] == 'ext' else None)
+        if op and op[0] == 'cancel':
+            cancelled_ids.add(int(op[1]))
+    wit = []
+    for i, f in enumerate(frames(stream)):
+        if f.trigger[0] == 'ev' and f.trigger[1]['status'] == 'cancelled' and f.trigger[1]['asset'] not in cancelled_ids:
+            e = f.trigger[1]
+            wit.append(f'frame {i}: the event of asset {e["asset"]} due at {e["time"]} was skipped as cancelled, '
+                       f'but nothing in the scenario cancels events of asset {e["asset"]}')
+    return wit[:3]
+
+
 # ------------------------------------------------------------------------------------------- C07
 def c07(stream, scen=None):
     """Per-event tracking through the pending / paused lists (needs the implementation's event
@@ -265,7 +284,7 @@ def c07(stream, scen=None):
     return wit
 
 
-MONITORS = {'C01': [c01, c01_runs], 'C07': [c07]}
+MONITORS = {'C01': [c01, c01_runs, c01_live], 'C07': [c07]}
 
 
 # ---------------------------------------------------------------------------- component monitors
@@ -1171,6 +1190,36 @@ def c08_idle(stream, scen=None):
     return wit
 
 
+def c06_source(stream, scen=None):
+    """a source needs its full cycle time for every part it supplies: two consecutive supplies of one
+    source are at least its cycle time apart (sources whose cycle time is changed by the scenario are
+    skipped)."""
+    for l in scen or []:
+        op = l[2] if l[0] == 'script' and len(l) > 2 else (l[1] if l[0] == 'ext' and len(l) > 1 else None)
+        if op in ('setcycle', 'offset', 'setparams'):
+            return []
+    wit = []
+    last = {}
+    for i, f in enumerate(frames(stream)):
+        if f.trigger[0] == 'abort':
+            return wit
+        devs = devs_of(f.state) if f.now is not None else {}
+        for rec in f.recs:
+            t = rec.split()
+            if t[0] != 'supplied_new_part':
+                continue
+            x, when = int(t[1]), num(t[2])
+            d = devs.get(x)
+            if d is not None and d.kind == 'source' and x in last:
+                cyc = num(d.f['cyc'])
+                if when - last[x] < cyc and not close(when - last[x], cyc):
+                    wit.append(f'frame {i}: source {x} (cycle time {cyc}) supplied parts at {last[x]} and {when}: only {when - last[x]} apart')
+            last[x] = when
+        if len(wit) > 3:
+            break
+    return wit
+
+
 MONITORS.update({'C02': [c02], 'C03': [c03], 'C05': [c05], 'C08': [c08], 'C11': [c11], 'C13': [c13],
                  'C15': [c15], 'C16': [c16], 'C17': [c17, c05, c17_hist]})
 
@@ -1355,4 +1404,4 @@ def c06(stream, scen=None):
     return wit
 
 
-MONITORS['C06'] = [c06]
+MONITORS['C06'] = [c06, c06_source]
